@@ -107,3 +107,23 @@ package m
 //@ func RoutingTable.LookupNearestRoute
 //@   option trusted
 //@   modifies nothing
+
+// ---- routing table: removals (C07, C11) ---------------------------------------------------------------
+// touches(e, x): route e has x as destination, next hop or anywhere on its path.
+//@ pred onPath(e *RoutingTableEntry, x netip.Addr) = exists i int :: 0 <= i && i < len(e.Path.Hops) && e.Path.Hops[i].Router == x
+//@ pred touches(e *RoutingTableEntry, x netip.Addr) = e.DstIP == x || e.NextHop == x || onPath(e, x)
+
+// The removal decision of RemoveDisconnected (the function literal handed to slices.DeleteFunc, which keeps exactly
+// the elements the literal returns false for): a route is removed only if it touches the disconnected router, and
+// when no peer list is given every route that touches it is removed.
+//@ func RoutingTable.RemoveDisconnected$RemoveDisconnected$1
+//@   requires rte != nil
+//@   ensures removes-only-routes-through-router [C07,C11]: result ==> touches(rte, old(router))
+//@   ensures removes-all-routes-through-router [C07,C11]: len(old(disconnected)) == 0 && touches(rte, old(router)) ==> result
+//@   ensures counts-removals [C11]: removed == old(removed) + (result ? 1 : 0)
+//@   invariant 1 not-yet: forall j int :: 0 <= j && j <= rangeindex && j < len(rte.Path.Hops) ==> rte.Path.Hops[j].Router != router
+
+// RemoveNextHop's literal: exactly the routes with that next hop.
+//@ func RoutingTable.RemoveNextHop$RemoveNextHop$1
+//@   requires rte != nil
+//@   ensures exactly-that-next-hop [C11]: result == (rte.NextHop == old(ip))
